@@ -60,7 +60,7 @@ class Arg:
 class Kernel:
     def __init__(self, name, args, ret, body, *, decls="", consts=None, mode="bv", W=None, views=("gcc",),
                  pre=None, claims=None, tags=None, unwind=None, ndebug=False, ref_body=None, desc="",
-                 max_paths=None, vectors=None, allow_ub=False, timeout=None, alt_modes=(), splits=None, prune_timeout_ms=None):
+                 max_paths=None, vectors=None, allow_ub=False, timeout=None, alt_modes=(), splits=None, prune_timeout_ms=None, guided_seeds=None):
         self.name = name
         self.args = [a if isinstance(a, Arg) else Arg(*a) for a in args]
         self.ret = ret
@@ -84,6 +84,7 @@ class Kernel:
         self.alt_modes = alt_modes
         self.splits = splits
         self.prune_timeout_ms = prune_timeout_ms
+        self.guided_seeds = guided_seeds
 
     def params_cpp(self):
         ps = []
